@@ -35,6 +35,7 @@ AttrValue(a) ==
   CASE a.val.k = "none" -> Bool(TRUE)
     [] a.val.k = "str"  -> Str(CleanText(SymsCp(a.val.syms)))
     [] a.val.k = "expr" -> Eval(a.val.e)
+    [] a.val.k = "elem" -> AnyV                  \* some vnode (its own denotation is decided where it is written as a child)
 
 (* ---- directives (C04) and v-model (C05) ---- *)
 RECURSIVE JoinWords(_, _, _)
